@@ -14,27 +14,58 @@ OInit == /\ mode = "eq" /\ start = NoStart /\ terms = << >> /\ lead = << 0, 0 >>
          /\ terms2 = << >> /\ added2 = << >> /\ objs = << >> /\ ops = << >>
 
 (* op = [kind |-> "str" | "new" | "re", eq |-> 1 | 2, form |-> f, idx |-> i] *)
+(* A form carries w2 = twice the weight the caller gives the Term object (Term.Constant is a public coefficient: *)
+(* 1 = half, 2 = the plain term, 3 = one and a half).  Coefficients of this module are therefore in HALF units.   *)
 FormOf(op, os) == IF op.kind = "re" THEN os[op.idx] ELSE op.form
+OCoef2(f) == FormCoef(f) * f.w2
+OAddTermOp(ts, f) ==
+    LET i == MergeIdx(ts, f.body)
+    IN IF i = 0 THEN Append(ts, MkTerm(f.body, OCoef2(f), FALSE))
+       ELSE [ts EXCEPT ![i].coef = @ + OCoef2(f)]
+RECURSIVE OSumAdded(_, _)
+OSumAdded(fs, v) == IF fs = << >> THEN 0
+                    ELSE OCoef2(Head(fs)) * DenText(Head(fs).body, v) + OSumAdded(Tail(fs), v)
+
+(* rendering in half units: Python's str(float) of c2/2 *)
+HalfStr(c2) == LET a == IF c2 < 0 THEN -c2 ELSE c2
+               IN (IF c2 < 0 THEN "-" ELSE "") \o ToString(a \div 2) \o (IF a % 2 = 0 THEN ".0" ELSE ".5")
+OTermStr(t) ==
+    IF t.blob THEN t.text
+    ELSE IF t.coef = 0 THEN ""
+    ELSE IF t.coef = 2 THEN "+" \o t.text
+    ELSE IF t.coef = -2 THEN "-" \o t.text
+    ELSE IF t.coef > 0 THEN "+" \o HalfStr(t.coef) \o "*" \o t.text
+    ELSE HalfStr(t.coef) \o "*" \o t.text
+RECURSIVE ORender(_, _)
+ORender(ts, first) ==
+    IF ts = << >> THEN ""
+    ELSE LET t == Head(ts)
+             str == OTermStr(t)
+         IN IF str = "" THEN ORender(Tail(ts), first)
+            ELSE (IF first /\ ~t.blob /\ t.coef > 0
+                  THEN (IF t.coef = 2 THEN t.text ELSE HalfStr(t.coef) \o "*" \o t.text)
+                  ELSE str) \o ORender(Tail(ts), FALSE)
+ORenderText(ts) == LET str == ORender(ts, TRUE) IN IF str = "" THEN "0.0" ELSE str
 
 ObjOp(op) ==
     /\ Len(ops) < MaxOps
     /\ LET f == FormOf(op, objs)
        IN /\ IF op.eq = 1
-             THEN terms' = AddTermOp(terms, f) /\ added' = Append(added, f) /\ UNCHANGED << terms2, added2 >>
-             ELSE terms2' = AddTermOp(terms2, f) /\ added2' = Append(added2, f) /\ UNCHANGED << terms, added >>
+             THEN terms' = OAddTermOp(terms, f) /\ added' = Append(added, f) /\ UNCHANGED << terms2, added2 >>
+             ELSE terms2' = OAddTermOp(terms2, f) /\ added2' = Append(added2, f) /\ UNCHANGED << terms, added >>
           /\ objs' = IF op.kind = "new" THEN Append(objs, f) ELSE objs
     /\ ops' = Append(ops, op)
     /\ UNCHANGED << mode, start, lead, jn >>
 
-NoForm == [s1 |-> "", br |-> FALSE, s2 |-> "", body |-> ""]
+NoForm == [s1 |-> "", br |-> FALSE, s2 |-> "", body |-> "", w2 |-> 2]
 ONext == \/ \E e \in {1, 2}, f \in ObjForms :
-              \/ ObjOp([kind |-> "str", eq |-> e, form |-> f, idx |-> 0])
+              \/ f.w2 = 2 /\ ObjOp([kind |-> "str", eq |-> e, form |-> f, idx |-> 0])   \* a text has no weight
               \/ ObjOp([kind |-> "new", eq |-> e, form |-> f, idx |-> 0])
          \/ \E e \in {1, 2}, i \in 1..Len(objs) : ObjOp([kind |-> "re", eq |-> e, form |-> NoForm, idx |-> i])
 
 OSpec == OInit /\ [][ONext]_ovars
 
 C12_ValuePreserved_Both ==
-    \A i \in 1..2 : /\ DenTerms(terms, Vals[i]) = SumAdded(added, Vals[i])
-                    /\ DenTerms(terms2, Vals[i]) = SumAdded(added2, Vals[i])
+    \A i \in 1..2 : /\ DenTerms(terms, Vals[i]) = OSumAdded(added, Vals[i])
+                    /\ DenTerms(terms2, Vals[i]) = OSumAdded(added2, Vals[i])
 =============================================================================
